@@ -54,6 +54,17 @@ impl Drop for Node {
             let g = circ::cs();
             g.flush();
         }
+        if self.pop_mask & 8 != 0 {
+            // gates of a long cascade (bit 3): every 130th node's destructor advances the epoch
+            // (from inside the cascade, right after the cascade's own re-pin at every 128th
+            // node), and node 395's is a scheduling point for the other threads
+            if self.id % 130 == 0 {
+                circ::verif::try_advance();
+            }
+            if self.id == 395 {
+                sched::point(sched::CLASS_DEREF, 0);
+            }
+        }
     }
 }
 
